@@ -48,7 +48,8 @@ theorem C05_underpaying_rejected (env : Env) (s : State) (txs : List Tx) (fb : H
   cases hf'
   exact Nat.lt_irrefl _ (Nat.lt_of_lt_of_le hlt hle)
 
-/-- minimum fee of a transaction at a multiplier (0 where the weight computation would crash) -/
+/-- minimum fee of a transaction at a multiplier (0 where the weight computation would crash — which, since the
+    fix for F19, happens for no transaction of an accepted batch: `C09_accepted_weights_fit`) -/
 def minFeeOf (m : Nat) (tx : Tx) : Nat := match tx.baseFee m with | .ok f => f | _ => 0
 
 /-- exact split: the minimum-fee parts go to the fee pool, the remainders to the tips (both saturating) -/
